@@ -278,7 +278,7 @@ func (feed *dcpFeed) run() {
 		go func() {
 			select {
 			case <-feed.args.Terminator:
-				verifPoint("feed.term", feed.args.ID)
+				verifPoint("feed.term", feed.verifID())
 				debug("%s terminator closed", feed)
 				feed.events.close()
 			case <-stopped:
@@ -291,7 +291,7 @@ func (feed *dcpFeed) run() {
 	}
 
 	for {
-		verifPoint("feed.pull", feed.args.ID)
+		verifPoint("feed.pull", feed.verifID())
 		if event := feed.events.pull(); event != nil {
 			feed.callback(*event)
 			if event.Cas > feed.lastCas {
